@@ -26,6 +26,12 @@ fhex = _c18.fhex
 
 EZ = ['{[#A][#B]}.{#A=F/C=C/[$],#B=[$]/C=C/F}', '{[#A]}.{#A=F/C=C\\F}', '{[#A]}.{#A=F/C=C/F}',
       '{[#A][#B]}.{#A=C/C=C\\[$],#B=[$]CC}', '{[#A]}.{#A=C/C=C/C=C/C}']
+# connected molecules with a zero-order ('.') bond inside a fragment (salts): the order-0 edge is an edge of the
+# graph like any other, the property's mean is over ALL edges
+SALTS = ['{[#A][#B]}.{#A=[$]CC,#B=[$]C(=O)[O-].[Na+]}', '{[#A]}.{#A=CC(=O)[O-].[Na+]}', '{[#A][#B]}.{#A=[$]C[NH3+].[Cl-],#B=[$]CO}',
+         '{[#A]}.{#A=[Na+].[Cl-]}', '{[#A][#B][#A]}.{#A=[$]C(=O)[O-].[Na+],#B=[$]CC[$]}']
+# edge `order` attributes: as produced by the source / none at all / some zero / mixed values
+ORDERS = ['asis', 'asis', 'none', 'zeros', 'mixed']
 BONDS = [1, 2, 0.5, 1.5, 2.37, 10, 1e-3, 100.0, 1.0]
 
 
@@ -64,6 +70,22 @@ def base_graph(rng, shape, n, thorough=False):
     raise ValueError(shape)
 
 
+def set_orders(G, mode, rng):
+    """rewrite the `order` edge attributes (the layout must not depend on them)"""
+    edges = list(G.edges)
+    if mode == 'none':
+        for e in edges:
+            G.edges[e].pop('order', None)
+    elif mode == 'zeros':
+        k = max(1, len(edges) // 4)
+        for e in rng.sample(edges, min(k, len(edges))):
+            G.edges[e]['order'] = 0
+    elif mode == 'mixed':
+        for e in edges:
+            G.edges[e]['order'] = rng.choice([0, 1, 1, 1.5, 2, 3])
+    return G
+
+
 def relabel(G, how, perm):
     """relabel nodes (and the node keys inside `ez_isomer` attributes)"""
     nodes = list(G.nodes)
@@ -94,7 +116,7 @@ def relabel(G, how, perm):
     if how == 'reversed':
         edges.reverse()
     for u, v, d in edges:
-        H.add_edge(mp[u], mp[v], order=d.get('order', 1))
+        H.add_edge(mp[u], mp[v], **({'order': d['order']} if 'order' in d else {}))
     return H
 
 
@@ -112,7 +134,8 @@ def build_graph(case):
     perm = [x for x in case['perm'] if x < n]
     if len(perm) != n:
         perm = list(range(n))
-    return relabel(G, case['relabel'], perm)
+    H = relabel(G, case['relabel'], perm)
+    return set_orders(H, case.get('orders', 'asis'), rng)
 
 
 def v2(p):
@@ -153,6 +176,11 @@ class C19(common.Prop):
                 dict(base, kind='layout', shape='molecule', n=0, s=EZ[1], relabel='strings', db=1.5),
                 dict(base, kind='layout', shape='molecule', n=0, s=EZ[3], relabel='reversed', db=0.5),
                 dict(base, kind='layout', shape='fused', n=6, relabel='offset', db=1e-3),
+                dict(base, kind='layout', shape='molecule', n=0, s=SALTS[0], relabel='identity', db=1),
+                dict(base, kind='layout', shape='molecule', n=0, s=SALTS[1], relabel='strings', db=2),
+                dict(base, kind='layout', shape='chain', n=5, relabel='identity', db=1, orders='zeros'),
+                dict(base, kind='layout', shape='ring', n=6, relabel='permute', db=1.5, orders='none'),
+                dict(base, kind='layout', shape='fused', n=6, relabel='identity', db=1, orders='mixed'),
                 dict(base, kind='rot', shape='chain', n=5, relabel='identity', pick=1, angle=120),
                 dict(base, kind='rot', shape='ring', n=6, relabel='strings', pick=2, angle=240),
                 dict(base, kind='rot', shape='fused', n=6, relabel='identity', pick=3, angle=120)]
@@ -168,7 +196,10 @@ class C19(common.Prop):
             c = {'shape': shape, 'n': rng.randint(2, big), 'relabel': rng.choice(RELABEL), 'perm': perm,
                  'gseed': rng.randrange(10 ** 6), 'npseed': rng.randrange(2 ** 31)}
             if shape == 'molecule':
-                c['s'] = rng.choice(EZ) if rng.random() < 0.35 else _c18.rand_cgsmiles(rng, small=not ctx.thorough())
+                r = rng.random()
+                c['s'] = rng.choice(EZ) if r < 0.3 else rng.choice(SALTS) if r < 0.5 else \
+                    _c18.rand_cgsmiles(rng, small=not ctx.thorough())
+            c['orders'] = rng.choice(ORDERS)
             if rng.random() < 0.75:
                 c['kind'] = 'layout'
                 c['db'] = rng.choice(BONDS) if rng.random() < 0.8 else round(rng.uniform(0.01, 50), 3)
@@ -211,7 +242,8 @@ class C19(common.Prop):
         gl.np = Delegate(real_np, linalg=Delegate(real_np.linalg, norm=norm))
         gl.check_and_fix_cis_trans = fix
         out = {'nodes': [ids[x] for x in G.nodes], 'edges': [[ids[u], ids[v]] for u, v in G.edges], 'db': float(case['db']),
-               'exc': 0, 'pre': [], 'lens': [], 'post': []}
+               'exc': 0, 'pre': [], 'lens': [], 'post': [],
+               'zero': any(d.get('order', 1) == 0 for _, _, d in G.edges(data=True))}
         state = np.random.get_state()
         try:
             np.random.seed(int(case['npseed']))
@@ -308,7 +340,8 @@ class C19(common.Prop):
     def case_class(self, case, impl):
         if 'skip' in impl:
             return 'skipped:' + impl['skip']
-        return '%s:%s:%s' % (case['kind'], case['shape'], case['relabel'])
+        z = ':zero-order-edge' if impl.get('zero') else ''
+        return '%s:%s:%s:%s%s' % (case['kind'], case['shape'], case['relabel'], case.get('orders', 'asis'), z)
 
     def coq_case(self, case, impl):
         if 'skip' in impl:
